@@ -37,7 +37,7 @@ def suite(wt):
 
 
 def main():
-    prop, mdir, wt = sys.argv[1], sys.argv[2].rstrip("/"), sys.argv[3]
+    prop, mdir, wt = sys.argv[1], os.path.abspath(sys.argv[2]), sys.argv[3]
     extra = sys.argv[4:]
     meta = json.load(open(os.path.join(mdir, "meta.json")))
     name = os.environ.get("SEED_PREFIX", "") + os.path.basename(mdir)
@@ -68,19 +68,21 @@ def main():
     verdict["confirmed"] = confirmed
     ran = []
     if confirmed:
-        rc, out = sh(["git", "-C", "/repo", "status", "--porcelain"])
-        if out.strip():
-            print("REPO NOT CLEAN", out)
+        # the checks are pointed at the scratch worktree (VERIF_REPO) with the patch applied, so that /repo itself -
+        # which background sweeps may be using - is never touched; the worktree must be at /repo's HEAD
+        rc, head_repo = sh(["git", "-C", "/repo", "rev-parse", "HEAD"])
+        rc, head_wt = sh(["git", "-C", wt, "rev-parse", "HEAD"])
+        if head_repo.strip() != head_wt.strip():
+            print("WORKTREE NOT AT /repo HEAD")
             sys.exit(2)
-        rc, out = sh(["git", "-C", "/repo", "apply", os.path.join(mdir, "patch.diff")])
+        rc, out = sh(["git", "apply", os.path.join(mdir, "patch.diff")], cwd=wt)
         try:
             for p in [prop] + extra:
-                rc, out = sh([os.path.join(VERIF, "bin", "check"), p, "quick"], cwd=VERIF, env=dict(os.environ))
+                rc, out = sh([os.path.join(VERIF, "bin", "check"), p, "quick"], cwd=VERIF, env=dict(os.environ, VERIF_REPO=wt))
                 lines = [l for l in out.splitlines() if l.startswith("VIOLATION") or l.startswith("  clause=") or l.startswith("INFRA")]
                 ran.append(dict(cmd="bin/check %s quick" % p, rc=rc, lines=lines[:4]))
         finally:
-            sh(["git", "-C", "/repo", "checkout", "--", "."])
-            sh(["git", "-C", "/repo", "clean", "-fdq"])
+            sh("git checkout -- . && git clean -fdq", cwd=wt)
         verdict["checks"] = ran
         verdict["caught_by"] = [r["cmd"].split()[1] for r in ran if r["rc"] == 1]
         dst = os.path.join(VERIF, "seeded", "%s-%s" % (prop, name))
